@@ -17,7 +17,10 @@ STRS = ['', 'a', 'None', '1', '1.0', 'true', 'é漢字', '\ud800', '"q"\\\n\t', 
         '{"_is_task": true}', ' ', 'null']
 ENUMS = [['vlab.tasks_core', 'Color', 'RED'], ['vlab.tasks_core', 'Color', 'GREEN'],
          ['vlab.tasks_core', 'Shade', 'RED'], ['vlab.tasks_core', 'Shade', 'DARK'],
-         ['vlab.tasks_alt', 'Color', 'RED'], ['vlab.tasks_alt', 'Color', 'GREEN']]
+         ['vlab.tasks_alt', 'Color', 'RED'], ['vlab.tasks_alt', 'Color', 'GREEN'],
+         ['vlab.tasks_core', 'Level', 'LOW'], ['vlab.tasks_core', 'Level', 'HIGH'], ['vlab.tasks_core', 'Level', 'ZERO'],
+         ['vlab.tasks_core', 'Mode', 'A'], ['vlab.tasks_core', 'Mode', 'RED'], ['vlab.tasks_core', 'Mode', 'EMPTY'],
+         ['vlab.tasks_core', 'Perm', 'R'], ['vlab.tasks_core', 'Perm', 'W']]
 TASKS = [['vlab.tasks_core', 'VA'], ['vlab.tasks_core', 'VB'], ['vlab.tasks_core', 'VAX'],
          ['vlab.tasks_alt', 'VA'], ['vlab.tasks_core', 'VJ'], ['vlab.tasks_core', 'VP']]
 KEYS = ['a', 'b', 'k', '', 'é', 'name', 'is_task', 'x.y', '0', 'p']
@@ -222,9 +225,16 @@ def near_miss(rng, desc):
         m, c, name = node['e']
         opts = [e for e in ENUMS if e != node['e'] and (e[2] == name or e[1] == c)] or [e for e in ENUMS if e != node['e']]
         new = {'e': list(rng.choice(opts))}
-        if rng.random() < 0.2:
-            new = {'s': name}
         kind = 'enum'
+        r = rng.random()
+        if r < 0.2:
+            new = {'s': name}
+        elif r < 0.55:
+            # the member's underlying value (mixed-in enums ARE int/str instances)
+            val = realize(node).value
+            if isinstance(val, (int, str)) and not isinstance(val, bool):
+                new = {'s': val}
+                kind = 'enum-to-value'
     elif 'l' in node or 't' in node:
         k = 'l' if 'l' in node else 't'
         r = rng.random()
